@@ -22,9 +22,12 @@ CMaxConn == P.maxConn
 CPinned == ToSet(P.pinned)
 
 \* Diameter identities are compared case-insensitively (RFC 6733 4.3.1): the instance parameters list the other spellings the
-\* environment uses for the configured peers (P.canon: spelling |-> configured name); the model works on configured names
+\* environment uses for the configured peers (P.canon: spelling |-> configured name).  A message keeps its Origin-Host as
+\* spelled (oh: what the node files its duplicate-detection records under) and gets the configured name next to it (ohc:
+\* what receive_cer looks the peer up with)
 Canon(h) == IF "canon" \in DOMAIN P /\ h \in DOMAIN P.canon THEN P.canon[h] ELSE h
-FromJson(m) == [m EXCEPT !.auth = ToSet(@), !.acct = ToSet(@), !.oh = Canon(@)]
+FromJson(m) == LET m1 == [m EXCEPT !.auth = ToSet(@), !.acct = ToSet(@)]
+               IN [f \in DOMAIN m1 \cup {"ohc"} |-> IF f = "ohc" THEN Canon(m.oh) ELSE m1[f]]
 RECURSIVE MsgsFromJson(_)
 MsgsFromJson(ms) == IF ms = <<>> THEN <<>> ELSE <<FromJson(Head(ms))>> \o MsgsFromJson(Tail(ms))
 
